@@ -19,16 +19,16 @@ var loopFuncs = map[string]loopFunc{
 }
 
 func funcIndex(s *state, key string) data.Value {
-	return s.context.lookup(key + "__index")
+	return s.context.lookup(key + ".index")
 }
 
 func funcIsFirst(s *state, key string) data.Value {
-	return data.Bool(s.context.lookup(key+"__index").(data.Int) == 0)
+	return data.Bool(s.context.lookup(key+".index").(data.Int) == 0)
 }
 
 func funcIsLast(s *state, key string) data.Value {
 	return data.Bool(
-		s.context.lookup(key+"__index").(data.Int) == s.context.lookup(key+"__lastIndex").(data.Int))
+		s.context.lookup(key+".index").(data.Int) == s.context.lookup(key+".lastIndex").(data.Int))
 }
 
 // Func represents a Soy function that may be invoked within a Soy template.
